@@ -5,10 +5,187 @@ From GF Require Import Base.Bytes Model.Prefix Spec.ListSpec Proofs.BytesFacts P
 Definition starts_with (d : N) (s : list N) : bool := match s with c :: _ => N.eqb c d | [] => false end.
 Definition ends_with (d : N) (s : list N) : bool := starts_with d (rev s).
 
+(* ---------- general facts: trim_left, split, join ---------- *)
+
+Lemma trim_left_id d s : starts_with d s = false -> trim_left d s = s.
+Proof. destruct s as [|c s]; cbn; [reflexivity|]. intros ->. reflexivity. Qed.
+
+Lemma ends_with_snoc d s : ends_with d (s ++ [d]) = true.
+Proof. unfold ends_with. rewrite rev_unit. cbn. apply N.eqb_refl. Qed.
+
+Lemma split_cons_eq d c s : N.eqb c d = true -> split d (c :: s) = [] :: split d s.
+Proof. intros H. cbn. rewrite H. reflexivity. Qed.
+
+Lemma join_cons d x X : X <> [] -> join d (x :: X) = x ++ d :: join d X.
+Proof. destruct X; [contradiction|reflexivity]. Qed.
+
+Lemma join_cons_cons d c h Y : join d ((c :: h) :: Y) = c :: join d (h :: Y).
+Proof. destruct Y; reflexivity. Qed.
+
+Lemma join_split d s : join d (split d s) = s.
+Proof.
+  induction s as [|c s IH]; [reflexivity|].
+  destruct (N.eqb c d) eqn:E.
+  - rewrite (split_cons_eq _ _ _ E). rewrite join_cons by apply split_nonempty.
+    rewrite IH. apply N.eqb_eq in E. subst. reflexivity.
+  - destruct (split_cons_ne d c s E) as (h & t & E1 & E2).
+    rewrite E2, join_cons_cons, <- E1, IH. reflexivity.
+Qed.
+
+Lemma firstn_split_nonempty d s t :
+  firstn (length (split d s)) (split d t) <> [].
+Proof.
+  pose proof (split_nonempty d s) as Hs. pose proof (split_nonempty d t) as Ht.
+  destruct (split d s); [contradiction|]. destruct (split d t); [contradiction|].
+  cbn. discriminate.
+Qed.
+
+(* ---------- prefixb / index_byte ---------- *)
+
+Lemma prefixb_app p s : prefixb p s = true -> s = p ++ skipn (length p) s.
+Proof.
+  revert s. induction p as [|x p IH]; intros s H; [reflexivity|].
+  destruct s as [|y s]; [discriminate|]. cbn [prefixb] in H.
+  apply andb_prop in H as [Hx H]. apply N.eqb_eq in Hx. subst y.
+  cbn [length skipn app]. f_equal. apply IH. exact H.
+Qed.
+
+Lemma prefixb_app_r p s : prefixb p (p ++ s) = true.
+Proof.
+  induction p as [|x p IH]; [reflexivity|]. cbn [app prefixb].
+  rewrite N.eqb_refl, IH. reflexivity.
+Qed.
+
+Lemma index_byte_some d s : forall i, index_byte d s = Some i ->
+  exists a b, s = a ++ d :: b /\ firstn (S i) s = a ++ [d].
+Proof.
+  induction s as [|c s IH]; intros i H; [discriminate|].
+  cbn [index_byte] in H. destruct (N.eqb c d) eqn:E.
+  - inversion H; subst. apply N.eqb_eq in E; subst. exists [], s. split; reflexivity.
+  - destruct (index_byte d s) as [j|]; [|discriminate]. inversion H; subst.
+    destruct (IH j eq_refl) as (a & b & Ha & Hb). exists (c :: a), b. split.
+    + cbn [app]. f_equal. exact Ha.
+    + change (firstn (S (S j)) (c :: s)) with (c :: firstn (S j) s). rewrite Hb. reflexivity.
+Qed.
+
+(* ---------- parts_match ---------- *)
+
+Lemma parts_match_one p k K : parts_match [p] (k :: K) = prefixb p k.
+Proof. reflexivity. Qed.
+
+Lemma parts_match_more p q r k K :
+  parts_match (p :: q :: r) (k :: K) = beq p k && parts_match (q :: r) K.
+Proof. reflexivity. Qed.
+
+Lemma parts_match_nil_r p P : parts_match (p :: P) [] = false.
+Proof. destruct P; reflexivity. Qed.
+
+Lemma parts_match_length P : forall K, parts_match P K = true -> (length P <= length K)%nat.
+Proof.
+  induction P as [|p P IH]; intros K H; [cbn; lia|].
+  destruct K as [|k K]; [rewrite parts_match_nil_r in H; discriminate|].
+  destruct P as [|q r]; [cbn; lia|].
+  rewrite parts_match_more in H. apply andb_prop in H as [_ H]. apply IH in H.
+  cbn [length] in *. lia.
+Qed.
+
+(* the part-wise comparison on splits is exactly the string-prefix test (no side condition) *)
+Lemma parts_match_split d pre : forall key,
+  parts_match (split d pre) (split d key) = prefixb pre key.
+Proof.
+  induction pre as [|c pre IH]; intros key.
+  - cbn [split]. destruct (split d key) as [|k K] eqn:E;
+      [exfalso; eapply split_nonempty; eassumption|]. reflexivity.
+  - destruct (N.eqb c d) eqn:Ec.
+    + rewrite (split_cons_eq _ _ _ Ec).
+      destruct (split d pre) as [|h t] eqn:EP; [exfalso; eapply split_nonempty; eassumption|].
+      destruct key as [|c' key].
+      * cbn [split prefixb]. rewrite parts_match_more, parts_match_nil_r. reflexivity.
+      * destruct (N.eqb c' d) eqn:Ec'.
+        -- rewrite (split_cons_eq _ _ _ Ec'). rewrite parts_match_more.
+           cbn [beq andb prefixb]. rewrite IH.
+           apply N.eqb_eq in Ec, Ec'. subst. rewrite N.eqb_refl. reflexivity.
+        -- destruct (split_cons_ne d c' key Ec') as (h' & t' & E1 & E2). rewrite E2.
+           rewrite parts_match_more. cbn [beq andb prefixb].
+           apply N.eqb_eq in Ec. subst c. rewrite N.eqb_sym, Ec'. reflexivity.
+    + destruct (split_cons_ne d c pre Ec) as (h & t & E1 & E2). rewrite E2. rewrite E1 in IH.
+      destruct key as [|c' key].
+      * cbn [split prefixb]. destruct t; reflexivity.
+      * destruct (N.eqb c' d) eqn:Ec'.
+        -- rewrite (split_cons_eq _ _ _ Ec').
+           assert (Hcc : N.eqb c c' = false) by (apply N.eqb_eq in Ec'; subst; exact Ec).
+           cbn [prefixb]. rewrite Hcc. destruct t; reflexivity.
+        -- destruct (split_cons_ne d c' key Ec') as (h' & t' & E1' & E2'). rewrite E2'.
+           specialize (IH key). rewrite E1' in IH. cbn [prefixb]. rewrite <- IH.
+           destruct t as [|q r].
+           ++ rewrite !parts_match_one. reflexivity.
+           ++ rewrite !parts_match_more. cbn [beq]. rewrite andb_assoc. reflexivity.
+Qed.
+
+(* ---------- shape of the output ---------- *)
+
+Lemma index_split_base d key :
+  match index_byte d key with
+  | None => length (split d key) = 1%nat
+  | Some i => length (split d key) <> 1%nat /\
+              join d (firstn 1 (split d key)) ++ [d] = firstn (S i) key
+  end.
+Proof.
+  induction key as [|c key IH]; [reflexivity|].
+  cbn [index_byte]. destruct (N.eqb c d) eqn:E.
+  - rewrite (split_cons_eq _ _ _ E). split.
+    + pose proof (split_nonempty d key) as Hn.
+      destruct (split d key); [contradiction|cbn [length]; lia].
+    + cbn. apply N.eqb_eq in E. subst. reflexivity.
+  - destruct (split_cons_ne d c key E) as (h & t & E1 & E2). rewrite E2. rewrite E1 in IH.
+    destruct (index_byte d key) as [i|].
+    + destruct IH as [IH1 IH2]. split; [exact IH1|].
+      change (firstn (S (S i)) (c :: key)) with (c :: firstn (S i) key).
+      rewrite <- IH2. reflexivity.
+    + exact IH.
+Qed.
+
+(* number of parts and the re-joined matched parts, in terms of the first delimiter after
+   the prefix (no side condition) *)
+Lemma prefix_core d pre : forall key, prefixb pre key = true ->
+  match index_byte d (skipn (length pre) key) with
+  | None => length (split d key) = length (split d pre)
+  | Some i => length (split d key) <> length (split d pre) /\
+      join d (firstn (length (split d pre)) (split d key)) ++ [d]
+      = pre ++ firstn (S i) (skipn (length pre) key)
+  end.
+Proof.
+  induction pre as [|c pre IH]; intros key H.
+  - cbn [length skipn split app]. apply index_split_base.
+  - destruct key as [|c' key]; [discriminate|]. cbn [prefixb] in H.
+    apply andb_prop in H as [Hc H]. apply N.eqb_eq in Hc. subst c'.
+    specialize (IH key H). cbn [length skipn].
+    destruct (N.eqb c d) eqn:E.
+    + rewrite !(split_cons_eq _ _ _ E). cbn [length].
+      destruct (index_byte d (skipn (length pre) key)) as [i|].
+      * destruct IH as [IH1 IH2]. split; [lia|]. cbn [firstn].
+        rewrite join_cons by apply firstn_split_nonempty. cbn [app]. rewrite IH2.
+        apply N.eqb_eq in E. subst. reflexivity.
+      * lia.
+    + destruct (split_cons_ne d c pre E) as (h & t & E1 & E2).
+      destruct (split_cons_ne d c key E) as (h' & t' & E1' & E2').
+      rewrite E2, E2'. rewrite E1, E1' in IH. cbn [length] in *.
+      destruct (index_byte d (skipn (length pre) key)) as [i|].
+      * destruct IH as [IH1 IH2]. split; [exact IH1|].
+        change (firstn (S (length t)) ((c :: h') :: t')) with ((c :: h') :: firstn (length t) t').
+        change (firstn (S (length t)) (h' :: t')) with (h' :: firstn (length t) t') in IH2.
+        rewrite join_cons_cons. cbn [app]. f_equal. exact IH2.
+      * exact IH.
+Qed.
+
+(* ---------- the three task lemmas ---------- *)
+
 (* without a delimiter: a plain string-prefix test *)
 Lemma match_eq_classify_nodelim pre key : prefix_match pre None key = classify pre None key.
 Proof.
-Admitted.
+  unfold prefix_match, classify. destruct pre as [|c pre]; [reflexivity|].
+  destruct (prefixb (c :: pre) key); reflexivity.
+Qed.
 
 (* with a delimiter d: for every key that neither starts nor ends with d and every prefix that
    does not start with d *)
@@ -16,13 +193,47 @@ Lemma match_eq_classify_delim d pre key :
   starts_with d key = false -> ends_with d key = false -> starts_with d pre = false ->
   prefix_match pre (Some d) key = classify pre (Some d) key.
 Proof.
-Admitted.
+  intros Hk He Hp. unfold prefix_match, classify. cbv zeta.
+  rewrite (trim_left_id _ _ Hk), (trim_left_id _ _ Hp).
+  rewrite parts_match_split.
+  destruct (prefixb pre key) eqn:Hpk.
+  - cbn [negb].
+    assert (Hlen : (length (split d pre) <= length (split d key))%nat)
+      by (apply parts_match_length; rewrite parts_match_split; exact Hpk).
+    destruct (Nat.ltb (length (split d key)) (length (split d pre))) eqn:Hlt;
+      [apply Nat.ltb_lt in Hlt; lia|].
+    pose proof (prefix_core d pre key Hpk) as Hc.
+    destruct (index_byte d (skipn (length pre) key)) as [i|] eqn:Hi.
+    + destruct Hc as [Hne Hout].
+      destruct (Nat.eqb (length (split d key)) (length (split d pre))) eqn:Heq;
+        [apply Nat.eqb_eq in Heq; contradiction|].
+      cbn [negb]. rewrite Hout.
+      destruct (beq (pre ++ firstn (S i) (skipn (length pre) key)) key) eqn:Hb; [|reflexivity].
+      exfalso. apply beq_eq in Hb.
+      destruct (index_byte_some _ _ _ Hi) as (a & b & Ha & Hb2).
+      rewrite Hb2 in Hb. rewrite <- Hb in He. rewrite app_assoc in He.
+      rewrite ends_with_snoc in He. discriminate.
+    + rewrite <- Hc. rewrite Nat.eqb_refl. cbn [negb]. rewrite app_nil_r.
+      rewrite firstn_all, join_split, beq_refl. reflexivity.
+  - cbn [negb]. destruct (Nat.ltb (length (split d key)) (length (split d pre))); reflexivity.
+Qed.
 
 (* consequence used by the listing theorems: a common prefix is a literal prefix of the key and
    ends with the delimiter *)
 Lemma classify_common_is_prefix pre d key p :
   classify pre (Some d) key = MCommon p -> prefixb p key = true /\ prefixb pre p = true /\ last p 0%N = d.
 Proof.
-Admitted.
+  unfold classify. destruct (prefixb pre key) eqn:Hpk; [|discriminate].
+  destruct (index_byte d (skipn (length pre) key)) as [i|] eqn:Hi; [|discriminate].
+  intros H. replace p with (pre ++ firstn (S i) (skipn (length pre) key)) by congruence.
+  clear H p. destruct (index_byte_some _ _ _ Hi) as (a & b & Ha & Hb). rewrite Hb.
+  split; [|split].
+  - pose proof (prefixb_app _ _ Hpk) as Hkey. rewrite Ha in Hkey. rewrite Hkey.
+    replace (pre ++ a ++ d :: b) with ((pre ++ a ++ [d]) ++ b)
+      by (rewrite <- !app_assoc; reflexivity).
+    apply prefixb_app_r.
+  - apply prefixb_app_r.
+  - rewrite app_assoc. apply last_last.
+Qed.
 
 Print Assumptions match_eq_classify_delim.
